@@ -426,17 +426,55 @@ theorem evalClosed_evalNum (I : Interp K) (ρ : Nat → K) (δ : Nat → Nat →
         · rename_i hnn
           have : (0 : K) ≤ (x : K) := by exact_mod_cast (not_lt.mp hnn)
           rw [abs_of_nonneg this]
-      · rename_i r hr
-        exfalso
-        cases r with
-        | none => simp at h
-        | some o =>
-            cases o with
-            | none => simp at h
-            | some v => exact hr v rfl
+      · rename_i hr
+        exact (hr q h).elim
   | floor a _ => intro q h; simp only [Convert.evalClosed] at h; split at h <;> simp at h
   | ceil a _ => intro q h; simp only [Convert.evalClosed] at h; split at h <;> simp at h
   | fn1 f a _ => intro q h; simp only [Convert.evalClosed] at h; split at h <;> simp at h
   | _ => intro q h; simp [Convert.evalClosed] at h
+
+/-! ### non-vacuity: the hypotheses (fields of `Interp`) are consistent
+
+    Over `Rat` the only multiplicative `φ` is the trivial one (the exponent group is divisible, `ℚ₊` is free), so this
+    instance is degenerate; the intended instance is `ℝ` with `φ s = ∏ p ^ e` and `pw = Real.rpow`, for which
+    `pw_cov` is `(x·c)^q = x^q·c^q` (`c > 0`) and `pw_int` is `Real.rpow_intCast`. -/
+noncomputable def ratInterp : Interp Rat where
+  φ _ := 1
+  φ_pos _ := one_pos
+  φ_congr _ := rfl
+  φ_add _ _ := (mul_one 1).symm
+  φ_nil := rfl
+  pw x q := if q.den = 1 then x ^ q.num else 1
+  pw_cov x s q := by simp
+  pw_int x n _ := by simp
+  pwK _ _ := 0
+  fn _ x := x
+  fn2 _ x _ := x
+  flr x := (Rat.floor x : Rat)
+  clg x := (Rat.ceil x : Rat)
+  cst _ := 3
+
+/-! ### a computable evaluator over `Rat` with the TRUE value of integer-exponent scales
+    (used only for the proved counterexample `floor_value_changes`; no theorem depends on it) -/
+
+/-- ∏ pᵉ for integer exponents -/
+def scaleQ : Scale → Rat
+  | [] => 1
+  | (p, x) :: t => ratPowInt (p : Rat) x.num * scaleQ t
+
+/-- plain arithmetic over `Rat` with genuine floor / ceiling -/
+def evalQ (ρ : Nat → Rat) : E → Rat
+  | .qty v _ => v
+  | .cf s _ => scaleQ s
+  | .var i => ρ i
+  | .int n => n
+  | .rat q => q
+  | .flt q => q
+  | .add a b => evalQ ρ a + evalQ ρ b
+  | .mul a b => evalQ ρ a * evalQ ρ b
+  | .abs a => if evalQ ρ a < 0 then - evalQ ρ a else evalQ ρ a
+  | .floor a => (Rat.floor (evalQ ρ a) : Int)
+  | .ceil a => (Rat.ceil (evalQ ρ a) : Int)
+  | _ => 0
 
 end Sem
